@@ -165,7 +165,7 @@ fn gen_fadt_set(s: &mut Choices) -> FadtSet {
         6 | 7 => FadtSet::Flag(s.below(25) as u8),
         8 => FadtSet::GpeInfo(s.u32(), s.u32(), s.u8(), s.u8(), s.u8()),
         9 => FadtSet::Profile(s.below(9) as u8),
-        10 => FadtSet::Field(s.below(42) as u8, s.u64()),
+        10 => FadtSet::Field(s.below(43) as u8, s.u64()),
         _ => FadtSet::FieldGas(s.below(11) as u8, gen_gas(s)),
     }
 }
@@ -340,6 +340,12 @@ fn gen_op(s: &mut Choices, kind: Kind, st: &mut St) -> Option<Op> {
             let b = match s.below(4) {
                 0 => a, // diagonal
                 _ => s.below(st.slit_n),
+            };
+            // rarely a domain outside the matrix (outcome unspecified: see expect::open_mask)
+            let (a, b) = match s.below(24) {
+                0 => (st.slit_n + s.below(3), b),
+                1 => (a, st.slit_n + s.below(3)),
+                _ => (a, b),
             };
             Op::SlitSet(a, b, s.u8())
         }
